@@ -243,6 +243,14 @@ def gen_kw(rng):
     return kw
 
 
+def tips_like_wells(rng, kw, n):
+    """sometimes: a tip collection with exactly as many (distinct) members as wells - still ONE mask for every record"""
+    if 2 <= n <= 8 and rng.random() < 0.15:
+        kw = dict(kw or {})
+        kw["tip"] = {"many": [[rng.choice("it"), t] for t in rng.sample(range(1, 9), n)]}
+    return kw
+
+
 def gen_remove_like(rng, sh, k, valid=True):
     """wells + volumes that the labware can give (mostly)"""
     wells = pick_wells(rng, sh, k)
@@ -322,7 +330,7 @@ def op_aspirate(rng, sh, k, valid=True):
     wells, vols = gen_remove_like(rng, sh, k, valid)
     sh.remove(k, wells, vols)
     wa = shape_wells(rng, wells)
-    return {"op": "aspirate", "lw": k, "wells": wa, "vols": shape_vols(rng, vols, wa), "label": rng.choice(LABELS), "kw": gen_kw(rng)}
+    return {"op": "aspirate", "lw": k, "wells": wa, "vols": shape_vols(rng, vols, wa), "label": rng.choice(LABELS), "kw": tips_like_wells(rng, gen_kw(rng), len(wells))}
 
 
 def op_dispense(rng, sh, k, valid=True):
@@ -330,7 +338,7 @@ def op_dispense(rng, sh, k, valid=True):
     sh.add(k, wells, vols)
     wa = shape_wells(rng, wells)
     return {"op": "dispense", "lw": k, "wells": wa, "vols": shape_vols(rng, vols, wa), "label": rng.choice(LABELS),
-            "comps": gen_comps(rng, len(wells)), "kw": gen_kw(rng)}
+            "comps": gen_comps(rng, len(wells)), "kw": tips_like_wells(rng, gen_kw(rng), len(wells))}
 
 
 def op_transfer(rng, sh, ks, kd, valid=True, wl=None):
@@ -574,7 +582,62 @@ def gen_dilute_program(rng):
     return {"dev": "evo", "wl": wl, "labware": specs, "ops": ops, "family": "dilute"}
 
 
+
+def gen_twins_program(rng):
+    """two different labware objects with the same name and geometry (e.g. two plates of one type both called "plate"):
+    they are two labware, not one - transfers between equal well ids, histories, compositions"""
+    kind = rng.choice(["plate", "plate", "trough"])
+    name = rng.choice(["plate", "MTP", "stocks"])
+    if kind == "plate":
+        a = {"kind": "plate", "name": name, "rows": 2, "cols": 3, "min": "0", "max": "1000", "init": {"shape": "2d", "v": [["200", "300", "0"], ["120", "0", "50"]]}}
+        b = {"kind": "plate", "name": name, "rows": 2, "cols": 3, "min": "0", "max": "1000", "init": {"shape": "2d", "v": [["100", "0", "80"], ["0", "60", "50"]]}}
+        ws = ["A01", "B01", "A02", "B03"]
+    else:
+        a = {"kind": "trough", "name": name, "vrows": 2, "cols": 2, "min": "0", "max": "5000", "init": {"shape": "list", "v": ["900", "400"]}}
+        b = {"kind": "trough", "name": name, "vrows": 2, "cols": 2, "min": "0", "max": "5000", "init": {"shape": "list", "v": ["100", "700"]}}
+        ws = ["A01", "B01", "A02", "B02"]
+    third = {"kind": "plate", "name": "other", "rows": 2, "cols": 2, "min": "0", "max": "500", "init": {"shape": "scalar", "v": "40"}}
+    specs = [a, b, third]
+    wl = {"max_volume": rng.choice(["950", "50", "25/2"]), "max_int": False, "auto_split": True, "diti_mode": False}
+    ops = []
+    w = rng.choice(ws[:2])
+    ops.append({"op": "transfer", "src": 0, "swells": {"shape": "list", "v": [w]}, "dst": 1, "dwells": {"shape": "list", "v": [w]},
+                "vols": {"shape": "list", "v": [rng.choice(["30", "60", "100"])]}, "label": rng.choice(["same id, other labware", None, ""]), "ws": 1})
+    ops.append({"op": "transfer", "src": 0, "swells": {"shape": "list", "v": ws[:2]}, "dst": 1, "dwells": {"shape": "list", "v": ws[:2]},
+                "vols": {"shape": "list", "v": ["20", "35"]}, "label": "pairwise", "ws": rng.choice([1, "flush"])})
+    ops.append({"op": "aspirate", "lw": 1, "wells": {"shape": "list", "v": [w]}, "vols": {"shape": "list", "v": ["5"]}, "label": None, "kw": None})
+    ops.append({"op": "transfer", "src": 1, "swells": {"shape": "list", "v": [w]}, "dst": 0, "dwells": {"shape": "list", "v": [w]},
+                "vols": {"shape": "list", "v": ["10"]}, "label": "back", "ws": 1})
+    ops.append({"op": "transfer", "src": 0, "swells": {"shape": "list", "v": [w]}, "dst": 0, "dwells": {"shape": "list", "v": [w]},
+                "vols": {"shape": "list", "v": ["15"]}, "label": "really the same well", "ws": 1})
+    return {"dev": "evo", "wl": wl, "labware": specs, "ops": ops, "family": "twins"}
+
+
+
+def gen_retune_program(rng):
+    """the worklist's max_volume is re-assigned between calls (other tips / syringe): every later call is judged by the value
+    in force when it runs.  Oracle-only (the model has no such operation)."""
+    plate = {"kind": "plate", "name": "plate", "rows": 2, "cols": 3, "min": "0", "max": "5000", "init": {"shape": "scalar", "v": "2500"}}
+    tr = {"kind": "trough", "name": "water", "vrows": 2, "cols": 1, "min": "0", "max": "100000", "init": {"shape": "scalar", "v": "50000"}}
+    m1, m2 = rng.choice([("950", "200"), ("200", "950"), ("1000", "375/2"), ("375/2", "1000"), ("50", "500")])
+    wl = {"max_volume": m1, "max_int": False, "auto_split": rng.random() < 0.7, "diti_mode": False}
+    v = rng.choice(["300", "375", "750", "190"])
+
+    def tr_op():
+        return {"op": "transfer", "src": 1, "swells": {"shape": "list", "v": ["A01"]}, "dst": 0, "dwells": {"shape": "list", "v": ["A01"]},
+                "vols": {"shape": "list", "v": [v]}, "label": None, "ws": 1}
+    ops = [tr_op(), {"op": "set_max", "v": m2}, tr_op(),
+           {"op": "transfer", "src": 1, "swells": {"shape": "list", "v": ["B01"]}, "dst": 0, "dwells": {"shape": "list", "v": ["B02"]},
+            "vols": {"shape": "list", "v": [fs(Fraction(m2) + Fraction(1, 8))]}, "label": "just above the new limit", "ws": 1},
+           {"op": "set_max", "v": m1}, tr_op()]
+    return {"dev": "evo", "wl": wl, "labware": [plate, tr], "ops": ops, "family": "retune"}
+
+
 def gen_program(rng, family, nops=None):
+    if family == "retune":
+        return gen_retune_program(rng)
+    if family == "twins":
+        return gen_twins_program(rng)
     if family == "wide":
         return gen_wide_program(rng)
     if family == "dilute":
@@ -743,6 +806,38 @@ def small_labware():
     return [{"kind": "plate", "name": "P", "rows": 2, "cols": 2, "min": "10", "max": "100",
              "init": {"shape": "2d", "v": [["50", "0"], ["100", "10"]]}, "names": {"A01": "glc"}},
             {"kind": "trough", "name": "T", "vrows": 2, "cols": 2, "min": "0", "max": "200", "init": {"shape": "list", "v": ["150", "0"]}}]
+
+
+def gen_length_programs():
+    """every pattern of incompatible argument lengths (none of them 1) x plate / trough as source and destination:
+    only singletons are broadcast, whatever the labware"""
+    out = []
+    bad = [(["A01", "B01"], ["A01", "B01", "C01"], ["10", "20", "30"]), (["A01", "B01"], ["A02", "B02", "C02", "D02"], "25"),
+           (["A01", "B01", "C01"], ["A01", "B01"], ["10", "20", "30"]), (["A01", "B01", "C01", "D01"], ["A03", "B03"], "15"),
+           (["A01", "B01", "C01"], ["A01", "B01", "C01"], ["10", "20"]), (["A01", "B01"], ["A01", "B01"], ["10", "20", "30", "40"])]
+
+    def mk(kind, name, filled):
+        if kind == "plate":
+            return {"kind": "plate", "name": name, "rows": 4, "cols": 3, "min": "0", "max": "10000", "init": {"shape": "scalar", "v": "5000" if filled else "0"}}
+        return {"kind": "trough", "name": name, "vrows": 4, "cols": 3, "min": "0", "max": "100000", "init": {"shape": "scalar", "v": "50000" if filled else "0"}}
+    for sk in ("plate", "trough"):
+        for dk in ("plate", "trough"):
+            ops = []
+            for sw, dw, vols in bad:
+                ops.append({"op": "transfer", "src": 0, "swells": {"shape": "list", "v": sw}, "dst": 1, "dwells": {"shape": "list", "v": dw},
+                            "vols": {"shape": "scalar", "v": vols} if isinstance(vols, str) else {"shape": "list", "v": vols}, "label": None, "ws": 1})
+            # and one compatible call at the end (the singleton is broadcast)
+            ops.append({"op": "transfer", "src": 0, "swells": {"shape": "list", "v": ["A01"]}, "dst": 1, "dwells": {"shape": "list", "v": ["A01", "B01", "C01"]},
+                        "vols": {"shape": "list", "v": ["10", "20", "30"]}, "label": None, "ws": 1})
+            out.append({"dev": "evo", "wl": {"max_volume": "950", "max_int": False, "auto_split": True, "diti_mode": False},
+                        "labware": [mk(sk, "src", True), mk(dk, "dst", False)], "ops": ops, "family": "lengths"})
+    # reagent distributions whose volume is just above max_volume / k: the multi-dispense count must be floored to k - 1
+    for mv, vols in (("950", ["7601/16", "1267/4", "3801/16", "475", "1901/4"]), ("200", ["1601/16", "401/8", "100"])):
+        ops = [{"op": "distribute", "src": 0, "col": 0, "dst": 1, "dwells": {"shape": "list", "v": ["A01", "B01", "C01"]}, "volume": v,
+                "multi_disp": md, "label": "md"} for v in vols for md in (6, 2)]
+        out.append({"dev": "evo", "wl": {"max_volume": mv, "max_int": False, "auto_split": True, "diti_mode": False},
+                    "labware": [mk("trough", "src", True), mk("plate", "dst", False)], "ops": ops, "family": "lengths"})
+    return out
 
 
 def gen_small_programs(length, autosplit=True, diti=False, sample=None, rng=None):
